@@ -9,8 +9,8 @@ theorem mudlibConnect_cstep (S : Scripts) (w : W) : CStep w (mudlibConnect S w).
   unfold mudlibConnect
   simp only []
   split
-  · show CStep w (errorHandler (emit _ (.xErr _)) _)
-    refine CStep.trans ?_ (Step.toC (raise_step _ _))
+  · show CStep w (popCtx (errorHandler (emit (pushCtx _) (.xErr _)) _))
+    refine CStep.trans ?_ (Step.toC (Step.bracket (raise_step _ _)))
     exact Step.toC (Same.step ⟨rfl, rfl, rfl, rfl, rfl, rfl, rfl, rfl, rfl, by trx⟩)
   · exact Step.toC (Same.step ⟨rfl, rfl, rfl, rfl, rfl, rfl, rfl, rfl, rfl, by trx⟩)
   · split
